@@ -1,4 +1,777 @@
-use vcore::{Report, Tier, Value, json};
-use crate::{Collector, sched::Plan};
-pub fn run(_rep: &Report, _col: &Collector, _tier: Tier) -> Value { json!({}) }
-pub fn replay(_r: &Value, _plan: &Plan) -> ! { std::process::exit(2) }
+//! WebSocket half of C15: compio-ws client and server ends on `PollFd<UnixStream>`, connected through
+//! two socketpairs and a harness relay that forwards bytes in explorer-chosen fragments
+//! (everything / 1 byte / half / hold for one step). The runtime is stepped manually: nothing ever
+//! waits for the OS; completions are harvested with zero-timeout polls.
+use std::{
+    cell::{Cell, RefCell},
+    future::Future,
+    io::{Read, Write},
+    os::unix::net::UnixStream,
+    pin::Pin,
+    rc::Rc,
+    sync::{
+        Arc, Mutex,
+        atomic::{AtomicBool, AtomicU64, Ordering},
+    },
+    task::{Context, Poll, Waker},
+    time::Duration,
+};
+
+use compio_driver::{DriverType, ProactorBuilder};
+use compio_runtime::{Runtime, RuntimeBuilder, fd::PollFd};
+use compio_ws::{WebSocketStream, accept_async, client_async};
+use tungstenite::{Error as WsError, Message};
+use vcore::{Report, Tier, Value, Violation, json};
+
+use crate::{Collector, sched::*};
+
+pub const SYM_NAME: [&str; 5] = ["text0", "bin1", "bin200", "ping", "close"];
+const CLOSE: u8 = 4;
+const PING: u8 = 3;
+
+#[derive(Clone, Debug, PartialEq, Eq, Hash, PartialOrd, Ord)]
+pub struct Scn {
+    /// which role sends the list (the other role receives)
+    pub sender: usize,
+    pub msgs: Vec<u8>,
+    pub uring: bool,
+}
+
+impl Scn {
+    pub fn name(&self) -> String {
+        format!(
+            "{}-sends[{}]:{}",
+            SIDE_NAME[self.sender],
+            self.msgs.iter().map(|m| SYM_NAME[*m as usize]).collect::<Vec<_>>().join(","),
+            if self.uring { "io_uring" } else { "poll" }
+        )
+    }
+
+    pub fn class(&self) -> String {
+        format!("{}-sends:{}", SIDE_NAME[self.sender], if self.uring { "io_uring" } else { "poll" })
+    }
+
+    pub fn to_json(&self) -> Value {
+        json!({"sender": self.sender, "msgs": self.msgs, "uring": self.uring})
+    }
+
+    pub fn from_json(v: &Value) -> Scn {
+        Scn {
+            sender: v["sender"].as_u64().unwrap_or(0) as usize,
+            msgs: v["msgs"].as_array().map(|a| a.iter().map(|x| x.as_u64().unwrap_or(0) as u8).collect()).unwrap_or_default(),
+            uring: v["uring"].as_bool().unwrap_or(false),
+        }
+    }
+}
+
+fn make_msg(sym: u8, idx: usize) -> Message {
+    match sym {
+        0 => Message::Text("".into()),
+        1 => Message::Binary(vec![0x40 + idx as u8].into()),
+        2 => Message::Binary((0..200).map(|i| (i as u8).wrapping_mul(7) ^ (idx as u8 * 0x55)).collect::<Vec<u8>>().into()),
+        3 => Message::Ping(vec![b'p', b'0' + idx as u8].into()),
+        _ => Message::Close(None),
+    }
+}
+
+fn show_msg(m: &Message) -> String {
+    match m {
+        Message::Text(t) => format!("text({})", t.len()),
+        Message::Binary(b) => format!("bin({}:{:02x?})", b.len(), &b[..b.len().min(2)]),
+        Message::Ping(b) => format!("ping({:?})", String::from_utf8_lossy(b)),
+        Message::Pong(b) => format!("pong({:?})", String::from_utf8_lossy(b)),
+        Message::Close(c) => format!("close({})", if c.is_some() { "frame" } else { "none" }),
+        Message::Frame(_) => "frame".into(),
+    }
+}
+
+#[derive(Default, Debug, Clone)]
+pub struct WsSide {
+    pub stage: String,
+    pub handshake_ok: bool,
+    pub got: Vec<Message>,
+    /// how the read loop ended: "closed" (ConnectionClosed), "done" (stopped reading), or an error
+    pub end: String,
+    pub finished: bool,
+    pub err: Option<String>,
+    pub err_poll: u64,
+}
+
+/// a flag the harness-side program sets; the other program can wait for it
+#[derive(Default)]
+struct Flag {
+    set: Cell<bool>,
+    waiter: RefCell<Option<Waker>>,
+}
+
+struct FlagFut(Rc<Flag>);
+
+impl Future for FlagFut {
+    type Output = ();
+
+    fn poll(self: Pin<&mut Self>, cx: &mut Context<'_>) -> Poll<()> {
+        if self.0.set.get() {
+            Poll::Ready(())
+        } else {
+            *self.0.waiter.borrow_mut() = Some(cx.waker().clone());
+            Poll::Pending
+        }
+    }
+}
+
+impl Flag {
+    fn raise(&self) {
+        self.set.set(true);
+        if let Some(w) = self.waiter.borrow_mut().take() {
+            w.wake();
+        }
+    }
+}
+
+type Ws = WebSocketStream<UnixStream>;
+
+async fn ws_side(side: usize, sock: UnixStream, scn: Scn, out: Rc<RefCell<WsSide>>, sender_done: Rc<Flag>) {
+    let r = ws_side_inner(side, sock, &scn, &out, &sender_done).await;
+    if side == scn.sender {
+        // whatever happened, never leave the receiver parked on the harness flag
+        sender_done.raise();
+    }
+    let mut o = out.borrow_mut();
+    match r {
+        Ok(()) => {
+            o.finished = true;
+            o.stage = "done".into();
+        }
+        Err(e) => o.err = Some(e),
+    }
+}
+
+async fn ws_side_inner(side: usize, sock: UnixStream, scn: &Scn, out: &Rc<RefCell<WsSide>>, sender_done: &Rc<Flag>) -> Result<(), String> {
+    let stage = |s: String| out.borrow_mut().stage = s;
+    stage("handshake".into());
+    let pfd = PollFd::new(sock).map_err(|e| format!("PollFd::new: {e}"))?;
+    let mut ws: Ws = if side == CLIENT {
+        client_async("ws://localhost/c15", pfd).await.map_err(|e| format!("client handshake: {e}"))?.0
+    } else {
+        accept_async(pfd).await.map_err(|e| format!("server handshake: {e}"))?
+    };
+    out.borrow_mut().handshake_ok = true;
+    let has_close = scn.msgs.last() == Some(&CLOSE);
+    if side == scn.sender {
+        for (i, m) in scn.msgs.iter().enumerate() {
+            stage(format!("send#{i}"));
+            ws.send(make_msg(*m, i)).await.map_err(|e| format!("send #{i} ({}): {e}", SYM_NAME[*m as usize]))?;
+        }
+        let pings = scn.msgs.iter().filter(|m| **m == PING).count();
+        if has_close {
+            stage("drain".into());
+            read_until_closed(&mut ws, out).await?;
+        } else {
+            stage("wait-pong".into());
+            while out.borrow().got.len() < pings {
+                match ws.read().await {
+                    Ok(m) => out.borrow_mut().got.push(m),
+                    Err(e) => return Err(format!("read while waiting for pong: {e}")),
+                }
+            }
+            out.borrow_mut().end = "done".into();
+        }
+    } else {
+        stage("recv".into());
+        while out.borrow().got.len() < scn.msgs.len() {
+            match ws.read().await {
+                Ok(m) => out.borrow_mut().got.push(m),
+                Err(e) => return Err(format!("read message #{}: {e}", out.borrow().got.len())),
+            }
+        }
+        if has_close {
+            stage("drain".into());
+            read_until_closed(&mut ws, out).await?;
+        } else {
+            // do not touch the stream any more: everything the protocol owes the peer (a pong) must
+            // already have been sent when the message was yielded
+            stage("park".into());
+            FlagFut(sender_done.clone()).await;
+            out.borrow_mut().end = "done".into();
+        }
+    }
+    drop(ws);
+    Ok(())
+}
+
+async fn read_until_closed(ws: &mut Ws, out: &Rc<RefCell<WsSide>>) -> Result<(), String> {
+    loop {
+        match ws.read().await {
+            Ok(m) => out.borrow_mut().got.push(m),
+            Err(WsError::ConnectionClosed) => {
+                out.borrow_mut().end = "closed".into();
+                return Ok(());
+            }
+            Err(e) => return Err(format!("read while completing the close handshake: {e}")),
+        }
+    }
+}
+
+// ---------------------------------------------------------------------------------------------
+// relay
+// ---------------------------------------------------------------------------------------------
+
+struct Relay {
+    /// ends[0]: peer of the client's socket, ends[1]: peer of the server's socket
+    ends: [UnixStream; 2],
+    /// buf[d]: bytes read from ends[d] waiting to be written to ends[1-d] (d = 0: client->server)
+    buf: [Vec<u8>; 2],
+    eof_seen: [bool; 2],
+    eof_sent: [bool; 2],
+    forwarded: [u64; 2],
+}
+
+impl Relay {
+    fn pump_in(&mut self) {
+        for d in 0..2 {
+            if self.eof_seen[d] {
+                continue;
+            }
+            let mut tmp = [0u8; 4096];
+            loop {
+                match self.ends[d].read(&mut tmp) {
+                    Ok(0) => {
+                        self.eof_seen[d] = true;
+                        break;
+                    }
+                    Ok(n) => self.buf[d].extend_from_slice(&tmp[..n]),
+                    Err(e) if e.kind() == std::io::ErrorKind::WouldBlock => break,
+                    Err(e) if e.kind() == std::io::ErrorKind::Interrupted => continue,
+                    Err(_) => {
+                        // reset by a peer that closed with unread data
+                        self.eof_seen[d] = true;
+                        break;
+                    }
+                }
+            }
+        }
+    }
+
+    /// one relay step; returns true if something was forwarded (bytes or EOF)
+    fn step(&mut self, dec: &mut Decider, trace: &mut Option<Vec<String>>) -> bool {
+        self.pump_in();
+        let mut moved = false;
+        for d in 0..2 {
+            let n = self.buf[d].len();
+            if n > 0 {
+                let k = match dec.decide(d, Call::Relay, n) {
+                    None => n,
+                    Some(Dev::One) => 1,
+                    Some(Dev::Half) => n / 2,
+                    Some(_) => 0,
+                };
+                if let Some(t) = trace {
+                    t.push(format!("relay {}: {n} bytes waiting -> forward {k}", DIR_NAME[d]));
+                }
+                let chunk: Vec<u8> = self.buf[d].drain(..k).collect();
+                let mut off = 0;
+                let mut spins = 0;
+                while off < chunk.len() {
+                    match self.ends[1 - d].write(&chunk[off..]) {
+                        Ok(w) => off += w,
+                        Err(e) if e.kind() == std::io::ErrorKind::WouldBlock || e.kind() == std::io::ErrorKind::Interrupted => {
+                            spins += 1;
+                            if spins > 1000 {
+                                panic!("harness: relay socket buffer stays full");
+                            }
+                        }
+                        Err(_) => break, // the receiving end is gone; the bytes are discarded like on a closed socket
+                    }
+                }
+                self.forwarded[d] += k as u64;
+                moved |= k > 0;
+            }
+            if self.buf[d].is_empty() && self.eof_seen[d] && !self.eof_sent[d] {
+                let _ = self.ends[1 - d].shutdown(std::net::Shutdown::Write);
+                self.eof_sent[d] = true;
+                moved = true;
+                if let Some(t) = trace {
+                    t.push(format!("relay {}: end of stream forwarded", DIR_NAME[d]));
+                }
+            }
+        }
+        moved
+    }
+
+    fn pending(&self) -> bool {
+        self.buf.iter().any(|b| !b.is_empty())
+    }
+}
+
+pub const DIR_NAME: [&str; 2] = ["c2s", "s2c"];
+
+// ---------------------------------------------------------------------------------------------
+// one execution
+// ---------------------------------------------------------------------------------------------
+
+#[derive(Debug, Clone, PartialEq)]
+pub enum WsEnd {
+    Done,
+    Deadlock,
+    Spin(String),
+    Panic(String),
+}
+
+pub struct WsOut {
+    pub end: WsEnd,
+    pub sides: [WsSide; 2],
+    pub reached: Vec<(Point, u32)>,
+    pub applied: Vec<bool>,
+    pub polls: u64,
+    pub forwarded: [u64; 2],
+    pub late_wakes: u64,
+    pub trace: Vec<String>,
+}
+
+const WS_POLL_HORIZON: u64 = 2_000;
+
+fn build_runtime(uring: bool) -> Runtime {
+    let mut pb = ProactorBuilder::new();
+    pb.driver_type(if uring { DriverType::IoUring } else { DriverType::Poll });
+    pb.capacity(32);
+    RuntimeBuilder::new()
+        .with_proactor(pb)
+        .build()
+        .unwrap_or_else(|e| vcore::machinery_error(&format!("cannot build a runtime (io_uring={uring}): {e}")))
+}
+
+fn harvest(rt: &Runtime) {
+    rt.poll_with(Some(Duration::ZERO));
+    rt.run();
+}
+
+thread_local! {
+    /// one runtime per (thread, driver): every execution leaves it without outstanding operations
+    /// (both streams are dropped, their readiness operations cancelled and reaped)
+    static RUNTIMES: RefCell<[Option<Runtime>; 2]> = const { RefCell::new([None, None]) };
+}
+
+pub fn run_ws(scn: &Scn, plan: &Plan, tracing: bool) -> WsOut {
+    let rt = RUNTIMES
+        .with(|r| r.borrow_mut()[scn.uring as usize].take())
+        .unwrap_or_else(|| build_runtime(scn.uring));
+    let outs = [Rc::new(RefCell::new(WsSide::default())), Rc::new(RefCell::new(WsSide::default()))];
+    let mut dec = Decider::new(plan.clone(), 100_000);
+    let mut trace: Option<Vec<String>> = if tracing { Some(Vec::new()) } else { None };
+    let mut polls = 0u64;
+    let mut late_wakes = 0u64;
+    let mut forwarded = [0u64; 2];
+    let end = rt.enter(|| {
+        let pair = || UnixStream::pair().unwrap_or_else(|e| vcore::machinery_error(&format!("socketpair: {e}")));
+        let (c_end, ra) = pair();
+        let (s_end, rb) = pair();
+        for s in [&ra, &rb] {
+            s.set_nonblocking(true).unwrap();
+        }
+        let mut relay = Relay {
+            ends: [ra, rb],
+            buf: [Vec::new(), Vec::new()],
+            eof_seen: [false; 2],
+            eof_sent: [false; 2],
+            forwarded: [0; 2],
+        };
+        let flag = Rc::new(Flag::default());
+        let board = Arc::new(Board::default());
+        let mut futs: [Option<Pin<Box<dyn Future<Output = ()>>>>; 2] = [
+            Some(Box::pin(ws_side(CLIENT, c_end, scn.clone(), outs[0].clone(), flag.clone()))),
+            Some(Box::pin(ws_side(SERVER, s_end, scn.clone(), outs[1].clone(), flag.clone()))),
+        ];
+        let r = vcore::catch(|| {
+            loop {
+                let mut polled = false;
+                for s in 0..2 {
+                    if futs[s].is_none() || !board.runnable(s) {
+                        continue;
+                    }
+                    let waker = board.next_waker(s);
+                    polled = true;
+                    polls += 1;
+                    if let Some(t) = &mut trace {
+                        t.push(format!("-- poll {} (#{polls}, stage {})", SIDE_NAME[s], outs[s].borrow().stage));
+                    }
+                    let mut cx = Context::from_waker(&waker);
+                    if let Poll::Ready(()) = futs[s].as_mut().unwrap().as_mut().poll(&mut cx) {
+                        futs[s] = None; // drops the WebSocket stream and closes the socket
+                        let mut o = outs[s].borrow_mut();
+                        if o.err.is_some() {
+                            o.err_poll = polls;
+                        }
+                        if let Some(t) = &mut trace {
+                            t.push(format!("   {} finished: got [{}] end={} err={:?}", SIDE_NAME[s],
+                                o.got.iter().map(show_msg).collect::<Vec<_>>().join(" "), o.end, o.err));
+                        }
+                    }
+                }
+                if futs.iter().all(|f| f.is_none()) {
+                    return WsEnd::Done;
+                }
+                if polls > WS_POLL_HORIZON {
+                    return WsEnd::Spin(format!("more than {WS_POLL_HORIZON} polls"));
+                }
+                harvest(&rt);
+                let moved = relay.step(&mut dec, &mut trace);
+                harvest(&rt);
+                let runnable = |futs: &[Option<Pin<Box<dyn Future<Output = ()>>>>; 2]| (0..2).any(|s| futs[s].is_some() && board.runnable(s));
+                if runnable(&futs) || relay.pending() || polled {
+                    continue;
+                }
+                // Nothing can run. A completion the harness itself enabled (bytes it forwarded) may need a
+                // few more harvest rounds; never an unbounded wait.
+                let rounds = if moved { 60 } else { 30 };
+                let mut woke = false;
+                for i in 0..rounds {
+                    if i > 2 {
+                        std::thread::sleep(Duration::from_millis(1));
+                    }
+                    harvest(&rt);
+                    relay.pump_in();
+                    if runnable(&futs) || relay.pending() || relay.eof_seen.iter().zip(&relay.eof_sent).any(|(a, b)| a != b) {
+                        woke = true;
+                        if i > 0 {
+                            late_wakes += 1;
+                        }
+                        break;
+                    }
+                }
+                if !woke {
+                    return WsEnd::Deadlock;
+                }
+            }
+        });
+        forwarded = relay.forwarded;
+        let r2 = vcore::catch(move || drop(futs));
+        harvest(&rt);
+        match (r, r2) {
+            (Ok(e), Ok(())) => e,
+            (Err(p), _) | (_, Err(p)) => {
+                if p.starts_with("SPIN:") {
+                    WsEnd::Spin(p)
+                } else {
+                    WsEnd::Panic(p)
+                }
+            }
+        }
+    });
+    for _ in 0..3 {
+        harvest(&rt);
+    }
+    if matches!(end, WsEnd::Panic(_)) {
+        drop(rt); // do not reuse a runtime a panic went through
+    } else {
+        RUNTIMES.with(|r| r.borrow_mut()[scn.uring as usize] = Some(rt));
+    }
+    WsOut {
+        end,
+        sides: [outs[0].borrow().clone(), outs[1].borrow().clone()],
+        reached: std::mem::take(&mut dec.reached),
+        applied: dec.applied.clone(),
+        polls,
+        forwarded,
+        late_wakes,
+        trace: trace.unwrap_or_default(),
+    }
+}
+
+pub fn judge_ws(scn: &Scn, out: &WsOut) -> Result<String, (String, String)> {
+    let stages = format!("client@{} server@{}", out.sides[0].stage, out.sides[1].stage);
+    let got = |s: usize| out.sides[s].got.iter().map(show_msg).collect::<Vec<_>>().join(" ");
+    match &out.end {
+        WsEnd::Panic(p) => return Err(("panic".into(), format!("{p} ({stages})"))),
+        WsEnd::Spin(p) => return Err(("spin".into(), format!("{p} ({stages})"))),
+        _ => {}
+    }
+    let mut errs: Vec<(u64, usize)> = (0..2).filter(|s| out.sides[*s].err.is_some()).map(|s| (out.sides[s].err_poll, s)).collect();
+    errs.sort();
+    if let Some((_, s)) = errs.first() {
+        let o = &out.sides[*s];
+        let role = if *s == scn.sender { "sender" } else { "receiver" };
+        let oracle = if !o.handshake_ok { "handshake-error".to_string() } else { format!("error@{role}-{}", o.stage.split('#').next().unwrap_or("")) };
+        return Err((
+            oracle,
+            format!("{} ({role}) failed: {} ({stages}; client got [{}], server got [{}])", SIDE_NAME[*s], o.err.as_deref().unwrap_or(""), got(0), got(1)),
+        ));
+    }
+    if out.end == WsEnd::Deadlock {
+        let st = |s: usize| out.sides[s].stage.split('#').next().unwrap_or("").to_string();
+        return Err((
+            format!("deadlock@sender-{}/receiver-{}", st(scn.sender), st(1 - scn.sender)),
+            format!(
+                "no side can run, the relay has nothing to forward and no readiness event arrives: {stages}; client got [{}], server got [{}]",
+                got(0),
+                got(1)
+            ),
+        ));
+    }
+    let has_close = scn.msgs.last() == Some(&CLOSE);
+    let recv = 1 - scn.sender;
+    let expected_recv: Vec<Message> = scn.msgs.iter().enumerate().map(|(i, m)| make_msg(*m, i)).collect();
+    if out.sides[recv].got != expected_recv {
+        return Err((
+            "messages-differ".into(),
+            format!(
+                "receiver ({}) got [{}], expected [{}]",
+                SIDE_NAME[recv],
+                got(recv),
+                expected_recv.iter().map(show_msg).collect::<Vec<_>>().join(" ")
+            ),
+        ));
+    }
+    let mut expected_send: Vec<Message> = scn
+        .msgs
+        .iter()
+        .enumerate()
+        .filter(|(_, m)| **m == PING)
+        .map(|(i, _)| Message::Pong(vec![b'p', b'0' + i as u8].into()))
+        .collect();
+    if has_close {
+        expected_send.push(Message::Close(None));
+    }
+    if out.sides[scn.sender].got != expected_send {
+        return Err((
+            "replies-differ".into(),
+            format!(
+                "sender ({}) got [{}], expected [{}]",
+                SIDE_NAME[scn.sender],
+                got(scn.sender),
+                expected_send.iter().map(show_msg).collect::<Vec<_>>().join(" ")
+            ),
+        ));
+    }
+    for s in 0..2 {
+        let want = if has_close { "closed" } else { "done" };
+        if out.sides[s].end != want || !out.sides[s].finished {
+            return Err((
+                "unclean-close".into(),
+                format!("{} ended with {:?}, expected {want:?}", SIDE_NAME[s], out.sides[s].end),
+            ));
+        }
+    }
+    Ok(format!("{}:ok:len{}:close={}", scn.class(), scn.msgs.len(), has_close))
+}
+
+// ---------------------------------------------------------------------------------------------
+// enumeration
+// ---------------------------------------------------------------------------------------------
+
+fn lists(max: usize) -> Vec<Vec<u8>> {
+    // every list of at most `max` symbols in which `close`, if present, is the last one
+    let mut out = vec![vec![]];
+    let mut frontier: Vec<Vec<u8>> = vec![vec![]];
+    for _ in 0..max {
+        let mut next = Vec::new();
+        for l in &frontier {
+            for s in 0..5u8 {
+                let mut n = l.clone();
+                n.push(s);
+                out.push(n.clone());
+                if s != CLOSE {
+                    next.push(n);
+                }
+            }
+        }
+        frontier = next;
+    }
+    out
+}
+
+struct WsCtx<'a> {
+    rep: &'a Report,
+    col: &'a Collector,
+    unreached: AtomicU64,
+    late: AtomicU64,
+}
+
+fn ws_exec(cx: &WsCtx, scn: &Scn, plan: &Plan) -> WsOut {
+    let out = run_ws(scn, plan, false);
+    let rep = cx.rep;
+    rep.add_execution(out.reached.len() as u64 + out.polls);
+    if !out.applied.iter().all(|a| *a) {
+        cx.unreached.fetch_add(1, Ordering::Relaxed);
+    }
+    cx.late.fetch_add(out.late_wakes, Ordering::Relaxed);
+    for ((_, d), a) in plan.iter().zip(&out.applied) {
+        if *a {
+            rep.count(&format!("ws.applied.relay.{}", DEV_NAME[*d as usize]), 1);
+        }
+    }
+    match judge_ws(scn, &out) {
+        Ok(sig) => {
+            rep.count(&format!("ws.ok.{}", scn.class()), 1);
+            if scn.msgs.contains(&PING) {
+                rep.count("ws.ping-ponged", 1);
+            }
+            if scn.msgs.last() == Some(&CLOSE) {
+                rep.count("ws.close-handshake-completed", 1);
+            }
+            rep.outcome(format!("ws:{sig}:{}", plan_class(plan, &out.applied)));
+            if plan.len() == 1 && out.applied[0] && scn.msgs.len() == 3 {
+                rep.sample(10, || json!({"part": "ws", "scenario": scn.name(), "plan": plan_text(plan), "polls": out.polls,
+                                        "relay_points": out.reached.len(), "result": "ok"}));
+            }
+        }
+        Err((oracle, detail)) => {
+            let class = plan_class(plan, &out.applied);
+            let shape: String = {
+                // cause class of the input: which kinds of message are in the list
+                let mut k: Vec<&str> = scn.msgs.iter().map(|m| SYM_NAME[*m as usize]).collect();
+                k.sort();
+                k.dedup();
+                k.join("+")
+            };
+            let key = format!("ws:{}:{}:{}:{}", scn.class(), oracle, if shape.is_empty() { "empty".into() } else { shape }, class);
+            let rank = (plan.len() as u64) << 40 | (scn.msgs.len() as u64) << 32 | plan.iter().map(|p| p.0.ord as u64).sum::<u64>().min(0xffff);
+            let traced = run_ws(scn, plan, true);
+            let same = judge_ws(scn, &traced).err().map(|e| e.0) == Some(oracle.clone());
+            let tail: Vec<String> = traced.trace.iter().rev().take(40).rev().cloned().collect();
+            cx.col.add(
+                rank,
+                Violation {
+                    key,
+                    what: format!("compio-ws {}, relay deviations [{}]: {}{}", scn.name(), plan_text(plan), detail,
+                                  if same { "" } else { " [NOT reproduced on re-execution]" }),
+                    replay: json!({"engine": "e_c15", "part": "ws", "scenario": scn.to_json(), "plan": plan_json(plan),
+                                   "reproduced": same, "trace_tail": tail}),
+                },
+            );
+        }
+    }
+    out
+}
+
+fn plans_after(reached: &[(Point, u32)], after: Option<Point>) -> Vec<(Point, Dev)> {
+    let start = match after {
+        None => 0,
+        Some(p) => reached.iter().position(|(q, _)| *q == p).map(|i| i + 1).unwrap_or(reached.len()),
+    };
+    let mut v = Vec::new();
+    for (q, m) in &reached[start..] {
+        for d in devs_for(q.call) {
+            if d.applicable(*m as usize) {
+                v.push((*q, *d));
+            }
+        }
+    }
+    v
+}
+
+pub fn must_reach(rep: &Report, tier: Tier) {
+    for d in ["one", "half", "hold"] {
+        rep.must_reach(&format!("ws.applied.relay.{d}"));
+    }
+    rep.must_reach("ws.ping-ponged");
+    rep.must_reach("ws.close-handshake-completed");
+    for s in scenarios(tier) {
+        rep.must_reach(&format!("ws.ok.{}", s.class()));
+    }
+}
+
+fn scenarios(tier: Tier) -> Vec<Scn> {
+    let mut v = Vec::new();
+    for l in lists(3) {
+        for sender in [CLIENT, SERVER] {
+            for uring in [false, true] {
+                if tier == Tier::Quick && l.len() == 3 {
+                    // quick: of the 80 lists of length three only those that end in a control frame or
+                    // mix all three data sizes, alternating the driver
+                    let interesting = (l[2] == CLOSE || l[2] == PING) && l[0] != l[1] || l == [0, 1, 2] || l == [2, 1, 0];
+                    if !interesting || uring != ((l[0] + l[1]) % 2 == 0) {
+                        continue;
+                    }
+                }
+                v.push(Scn {
+                    sender,
+                    msgs: l.clone(),
+                    uring,
+                });
+            }
+        }
+    }
+    v
+}
+
+pub fn run(rep: &Report, col: &Collector, tier: Tier) -> Value {
+    let scns = scenarios(tier);
+    let bound = tier.pick(1, 2);
+    let deadline = tier.pick(43.0, 560.0);
+    let cx = WsCtx {
+        rep,
+        col,
+        unreached: AtomicU64::new(0),
+        late: AtomicU64::new(0),
+    };
+    let base: Vec<Mutex<Vec<(Point, u32)>>> = scns.iter().map(|_| Mutex::new(Vec::new())).collect();
+    vcore::par_for_each(&scns, |i, s| {
+        let out = ws_exec(&cx, s, &Vec::new());
+        *base[i].lock().unwrap() = out.reached;
+    });
+    let mut items: Vec<(usize, (Point, Dev))> = Vec::new();
+    let mut points_max = 0;
+    for (i, b) in base.iter().enumerate() {
+        let r = b.lock().unwrap();
+        points_max = points_max.max(r.len());
+        for p in plans_after(&r, None) {
+            items.push((i, p));
+        }
+    }
+    items.sort_by_key(|(i, (p, d))| (p.ord, p.side, *d, *i));
+    let l1 = items.len();
+    let l2 = AtomicU64::new(0);
+    let capped = AtomicBool::new(false);
+    vcore::par_for_each(&items, |_, (i, first)| {
+        if rep.elapsed() > deadline {
+            capped.store(true, Ordering::Relaxed);
+            return;
+        }
+        let scn = &scns[*i];
+        let out = ws_exec(&cx, scn, &vec![*first]);
+        if bound >= 2 && out.applied[0] {
+            for second in plans_after(&out.reached, Some(first.0)) {
+                if rep.elapsed() > deadline {
+                    capped.store(true, Ordering::Relaxed);
+                    break;
+                }
+                ws_exec(&cx, scn, &vec![*first, second]);
+                l2.fetch_add(1, Ordering::Relaxed);
+            }
+        }
+    });
+    if capped.load(Ordering::Relaxed) {
+        rep.cap_hit(&format!("ws: stopped at the wall-clock cap of {deadline} s"));
+    }
+    rep.count("ws.plan-point-unreached", cx.unreached.load(Ordering::Relaxed));
+    rep.count("ws.readiness-needed-extra-harvest-rounds", cx.late.load(Ordering::Relaxed));
+    json!({
+        "scenarios": scns.len(),
+        "message_lists": "all lists of <= 3 symbols from {empty text, 1-byte binary, 200-byte binary, ping, close} with close only in last position (106 lists; quick: all lists of <= 2 and 24 selected lists of 3), sent by the client or by the server, on the io_uring and on the polling driver",
+        "deviation_bound": bound,
+        "relay_deviations": ["one byte", "half", "hold for one step"],
+        "relay_points_max_per_run": points_max,
+        "one_deviation_runs": l1,
+        "two_deviation_runs": l2.load(Ordering::Relaxed),
+        "poll_horizon": WS_POLL_HORIZON,
+    })
+}
+
+pub fn replay(r: &Value, plan: &Plan) -> ! {
+    let scn = Scn::from_json(&r["scenario"]);
+    let out = run_ws(&scn, plan, true);
+    for l in &out.trace {
+        println!("{l}");
+    }
+    println!("scenario {}, plan [{}], applied {:?}", scn.name(), plan_text(plan), out.applied);
+    match judge_ws(&scn, &out) {
+        Ok(sig) => {
+            println!("HELD: {sig}");
+            std::process::exit(0)
+        }
+        Err((o, d)) => {
+            println!("VIOLATED: {o}: {d}");
+            std::process::exit(1)
+        }
+    }
+}
